@@ -10,8 +10,8 @@ From RB Require Import Base.Prelude Sig.Types Sig.Validator Sig.ParserProofs Wir
    (with the body length and the serial), the a(yv) value of the message's fields encoded at offset 12 by the
    wire-format specification, zero padding to 8; that value is well typed and encodable (so the array is within the
    64 MiB limit), SIGNATURE / UNIX_FDS are present exactly when the body is non-empty / descriptors are attached,
-   all names are in the specification's languages, the body's signature is valid, the type is not Invalid and the
-   whole message is within 128 MiB *)
+   all names are in the specification's languages, the body's signature is valid, the type is not Invalid, the fields
+   the type requires are present, no descriptor of the body has been taken, and the whole message is within 128 MiB *)
 Theorem C05_conformant : forall m serial hb, rust_typed m -> nonzero_u32 serial -> marshal_msg m serial = Ok hb ->
   hb = fixed_part (m_be m) (type_no (m_typ m)) (m_flags m) (len (m_body m)) serial
        ++ spec_enc (m_be m) 12 (header_value m)
@@ -23,18 +23,22 @@ Theorem C05_conformant : forall m serial hb, rust_typed m -> nonzero_u32 serial 
   /\ (m_nfds m <> 0 -> In (u32_field UNIX_FDS (m_nfds m)) (fields_of_msg m))
   /\ (m_nfds m = 0 -> ~ has UNIX_FDS (fields_of_msg m))
   /\ names_valid m /\ (m_body m <> [] -> validate_signature (m_sig m) = Ok tt)
-  /\ m_typ m <> MInvalid /\ len hb + len (m_body m) <= 2 ^ 27.
+  /\ m_typ m <> MInvalid /\ required_present m /\ (m_nfds m <> 0 -> m_live m = m_nfds m)
+  /\ len hb + len (m_body m) <= 2 ^ 27.
 Proof. exact conformant. Qed.
 Print Assumptions C05_conformant.
 
-(* a message with an invalid name or of type Invalid is refused *)
-Theorem C05_refuse : forall m serial, rust_typed m -> ~ names_valid m \/ m_typ m = MInvalid -> marshal_msg m serial = Err.
+(* a message with an invalid name, of type Invalid, lacking a header field its type requires, or whose body holds a
+   descriptor handle whose descriptor has been taken, is refused *)
+Theorem C05_refuse : forall m serial, rust_typed m ->
+  (~ names_valid m \/ m_typ m = MInvalid \/ ~ required_present m \/ (m_nfds m <> 0 /\ m_live m <> m_nfds m)) ->
+  marshal_msg m serial = Err.
 Proof. exact marshal_msg_refuse. Qed.
 Print Assumptions C05_refuse.
 
-(* conversely, a message of a valid type whose names and body signature are valid and whose header fits the
+(* conversely, a message of a valid type that carries the fields its type requires, whose names and body signature are valid and whose header fits the
    protocol's limits (field array <= 64 MiB, message <= 128 MiB) IS marshalled, to the specification's header *)
-Theorem C05_accept : forall m serial, rust_typed m -> fields_valid m -> m_typ m <> MInvalid ->
+Theorem C05_accept : forall m serial, rust_typed m -> fields_valid m -> m_typ m <> MInvalid -> required_present m ->
   len (spec_enc_list (m_be m) 16 (map field_val (fields_of_msg m))) <= MAX_ARRAY ->
   len (spec_header m serial) + len (m_body m) <= 2 ^ 27 ->
   opt_all (fun s => len s < 2 ^ 32) (m_object m) ->
@@ -48,8 +52,8 @@ Proof. exact marshal_msg_total. Qed.
 Print Assumptions C05_total.
 
 (* the library's own decoders turn header ++ body back into the same type, flags, serial, header fields,
-   signature, body bytes and descriptor count (for messages that carry the fields their type requires) *)
-Theorem C05_roundtrip : forall m serial hb nfds, rust_typed m -> nonzero_u32 serial -> required_present m ->
+   signature, body bytes and descriptor count - for EVERY message that marshals *)
+Theorem C05_roundtrip : forall m serial hb nfds, rust_typed m -> nonzero_u32 serial ->
   marshal_msg m serial = Ok hb ->
   decode_message (hb ++ m_body m) nfds =
   Ok {| dm_hdr := hdr_of_msg m serial; dm_body := m_body m;
